@@ -59,6 +59,7 @@ type Stall struct {
 	At     int `json:"at"`
 	For    int `json:"for"`
 	AfterW int `json:"after_w,omitempty"`
+	AfterS int `json:"after_s,omitempty"`
 }
 
 // Case is the replay document: the explicit decisions of one run, not the seed that
